@@ -293,6 +293,15 @@ class SR:
         return True if r is NotImplemented else r
 
     def __hash__(self):
+        # Values built from a non-injective model function (round) may be equal although they are written
+        # differently: they all hash alike, so that a dict / set keyed by them compares with == (a fork the solver
+        # decides) instead of silently treating them as different keys.
+        eng = _ENGINE
+        if eng is not None and eng._has_round:
+            for m in self.p:
+                for a, _k in m:
+                    if eng._atoms[a][0][0] == 'round':
+                        return 7
         return hash(self.key())
 
     def __bool__(self):
@@ -503,6 +512,7 @@ class Engine:
         self.decided = {}
         self.path_cond = []
         self.axioms = []  # z3 formulas asserted on every path (documented per harness)
+        self._has_round = False
         self.hyp_sites = set()  # (filename suffix, lineno) of asserts treated as hypotheses
         self.stats = dict(paths=0, pruned=0, branch_queries=0, verdict_queries=0, solver_s=0.0, forks=0,
                           verdict_unsat=0, verdict_sat=0, verdict_trivial=0)
@@ -608,6 +618,7 @@ class Engine:
         if x.is_const():
             return SR.const(Fraction(round(x.const_value() * scale)) / scale)
         key = ('round', x.key(), nd)
+        self._has_round = True
         n = len([1 for k in self._atom_by_key if k[0] == 'round'])
         ki = z3.Int('roundk!%d' % n)
         fresh = key not in self._atom_by_key
